@@ -901,6 +901,10 @@ class RF24:
     def stop_carrier_wave(self):
         """Stops a continuous carrier wave test."""
         self._ce_pin.value = False
-        self.power = False
+        # not `self.power = False`: that reads CONFIG, which the test for non-plus
+        # variants has overwritten, back into the cached configuration
+        self._config &= 0x7D
+        self._reg_write(CONFIGURE, self._config)
+        time.sleep(0.00015)
         self._rf_setup &= ~0x90
         self._reg_write(RF_PA_RATE, self._rf_setup)
